@@ -525,7 +525,16 @@ impl<'a> PGen<'a> {
                 let r = self.fresh();
                 let p = self.fresh();
                 let k = if self.rng.chance(1, 2) { self.rng.range(992, 1003) } else { self.rng.range(880, 1003) };
-                let body = cond(bin(".==", id("n"), num(0)), num(0), bin("+", num(1), call(id(&r), vec![bin("-", id("n"), num(1))])));
+                // plain self-recursion, or recursion that passes through a callback of `via`
+                // (each level then costs more than one call)
+                let via_cb = self.rng.chance(1, 4);
+                let k = if via_cb { k / 3 + self.rng.range(0, 6) } else { k };
+                let rec = if via_cb {
+                    idx(bin("via", E::List(vec![bin("-", id("n"), num(1))]), id(&r)), num(0))
+                } else {
+                    call(id(&r), vec![bin("-", id("n"), num(1))])
+                };
+                let body = cond(bin(".==", id("n"), num(0)), num(0), bin("+", num(1), rec));
                 self.vars.push((r.clone(), T::Fun));
                 self.vars.push((p.clone(), T::Num));
                 vec![(Stmt::Expr(assign(&r, lam(&["n"], body))), "depth-probe-def"), (Stmt::Expr(assign(&p, call(id(&r), vec![num(k)]))), "depth-probe-call")]
